@@ -16,6 +16,8 @@
   Helper lemmas: Lemmas/Inherit.lean.
 -/
 import JinjaV.Lemmas.Inherit
+import JinjaV.Lemmas.DumpScope
+import JinjaV.Gen.DumpStores
 
 namespace JinjaV.C04
 open JinjaV.Inherit JinjaV.SpecInherit
@@ -183,6 +185,33 @@ example : pieceWith (callFn 3 (initBlocks e0)) [("x", "ctx".toList)] (initBlocks
     (.block "i" true false []) = .ok "loop".toList := by decide
 example : pieceWith (callFn 3 (initBlocks e0)) [("x", "ctx".toList)] (initBlocks e0) none true true [("x", "loop".toList)]
     (.block "i" false false []) = .ok "ctx".toList := by decide
+
+/-! ### what a scoped block sees: the scope chain, innermost binding first -/
+
+/-- `Symbols.dump_stores` as READ from idtracking.py (Gen/DumpStores.lean), run on any chain of scopes (innermost
+    first): the dict handed to `context.derived` resolves every name to its INNERMOST binding, and binds nothing else.
+    Re-proved over the regenerated program on every run. -/
+theorem dump_stores_innermost_wins (chain : List DumpScope.Scope) (x : String) :
+    (DumpScope.run Gen.DumpStores.prog chain).lookup x = chain.flatten.lookup x := by
+  have h : Gen.DumpStores.prog = DumpScope.P0 := by decide
+  rw [h]
+  exact DumpScope.run_P0 chain x
+
+/-- … hence the model's scoped call site, which passes the flattened chain `loc` in front of the context variables,
+    is what the generated `context.derived(dump_local_context(frame))` resolves names to -/
+theorem scoped_locals_are_dump_stores (chain : List DumpScope.Scope) (vars : Vars) (x : Name) :
+    lookupVar [] (DumpScope.run Gen.DumpStores.prog chain ++ vars) x = lookupVar chain.flatten vars x := by
+  simp only [lookupVar, List.nil_append, List.lookup_append, dump_stores_innermost_wins]
+
+example : (DumpScope.run Gen.DumpStores.prog [[("x", "in".toList)], [("x", "out".toList), ("g", "w".toList)]]).lookup "x"
+    = some "in".toList := by decide
+
+/-- nested scopes binding the same name around a scoped placeholder: reused loop target, `loop` itself, `with` -/
+def n0 : Tpl := ⟨"n0", [.forLoop "x" ["1".toList, "2".toList] [tx "[", .forLoop "x" ["a".toList, "b".toList]
+  [.withv "w" "o".toList [.withv "w" "i".toList [.block "c" true false [.loopAttr "index", tx ":", .var "x", .var "w", tx ";"]]]], tx "]"]]⟩
+def n1 : Tpl := ⟨"n1", [.ext (.lit "n0"), .block "c" false false [tx "<", .loopAttr "index", .var "x", tx "|", .superCall 0, tx ">"]]⟩
+example : renderTemplate [n0, n1] 4 4 [] "n0" = .ok "[1:ai;2:bi;][1:ai;2:bi;]".toList := by decide
+example : renderTemplate [n0, n1] 4 4 [] "n1" = .ok "[<1a|1:ai;><2b|2:bi;>][<1a|1:ai;><2b|2:bi;>]".toList := by decide
 
 /-! ### required blocks -/
 
